@@ -617,6 +617,11 @@ func judge(p Property, meta Meta, tier string, seed int64, n int, agg *aggregate
 	tmp := evPath + ".tmp"
 	ioutil.WriteFile(tmp, append(b, '\n'), 0644)
 	os.Rename(tmp, evPath)
+	if tier == "thorough" {
+		// keep the last thorough evidence next to the (always rewritten) per-property file
+		os.MkdirAll(filepath.Join(OutDir(), "evidence", "thorough"), 0755)
+		ioutil.WriteFile(filepath.Join(OutDir(), "evidence", "thorough", meta.ID+".json"), append(b, '\n'), 0644)
+	}
 
 	// report
 	keys := make([]string, 0, len(observed))
